@@ -672,7 +672,8 @@ SPEC = {
              'Sampled: n=3-5 functions (random / symmetric-up-to-negation / threshold / input-like columns), random '
              'netlist circuits against their reference table, models with generated don\'t-cares (check/check_at/'
              'get_model_truth_table/define incl. incomplete definitions), integer wrappers in both bit orders, utility '
-             'functions. Non-trivial: non-constant function.'),
+             'functions. Non-trivial: non-constant function.'
+             ' Added during the build: sub-check wide (structured functions of 6-10 inputs: folds, gated folds, columns that are zero below a row threshold, thresholds, input copies), zero-input functions, a callable answering tuples, transported models.'),
     'assumptions': ['definitions in props/c12.py written from the protocol docstrings'],
     'subs': [Sub('sampled', func_cases, check_sampled, {'quick': 320, 'thorough': 30000}),
              Sub('wide', wide_cases, check_wide, {'quick': 240, 'thorough': 8000}),
